@@ -34,6 +34,8 @@ ROUND_OF.update({f'{p}/{n}': 5 for p in ('C01', 'C08', 'C12', 'C14', 'C17', 'C18
 ROUND_OF.update({f'{p}/{n}': 5 for p in ('C07', 'C11') for n in ('5', '6')})
 ROUND_OF.update({f'{p}/{n}': 6 for p in ('C01', 'C02', 'C03', 'C04', 'C05', 'C06', 'C08', 'C09', 'C12', 'C13', 'C14', 'C15', 'C16', 'C17', 'C18', 'C19', 'C20') for n in ('9', '10')})
 ROUND_OF.update({f'{p}/{n}': 6 for p in ('C07', 'C10', 'C11') for n in ('7', '8')})
+ROUND_OF.update({f'{p}/{n}': 7 for p in ('C02', 'C08', 'C12', 'C14', 'C15', 'C17', 'C18', 'C19') for n in ('11', '12')})
+ROUND_OF.update({'C07/9': 7, 'C07/10': 7})
 
 
 def sh(cmd, cwd=None, env=None, timeout=1500):
